@@ -87,3 +87,17 @@ PROPS["C15"] = {
                        "C15_close_collects_only_active": "proved", "C15_close_goes_on": "proved",
                        "C15_close_always_releases": "proved", "C15_close_reaches_release": "proved"},
 }
+
+PROPS["C20"] = {
+    "coq": ["Properties/C20.v", "Corr/C20corr.v"],
+    "trusted": [
+        "Generate and ReadAndValidateConfig are taken as functions without file-system side effects (the model's [gen] parameter); this is CHECKED per run: strace shows no mutating syscall under the project directory in any failing run",
+        "os.MkdirAll / os.WriteFile semantics (truncating whole-file write; failure to open changes nothing); strace -f as the observer of opens-for-writing, renames, unlinks, mkdirs",
+        "the generator's bytes are taken from an in-process generate.Generate call on the same configuration with the same /repo code",
+    ],
+    "assumptions": ["write errors (disk full, permission) are outside the property's error classes; the model covers two (target is a directory, parent is a file) for the tie only"],
+    "level_text": "Theorems over every prior file system, generator result, output order and fault plan: a configuration/schema/operation/code-generation error leaves the file system unchanged with no mutating operation attempted; success writes exactly the generator's bytes to exactly its output paths, independent of map-iteration order; under any outcome writes only carry the generator's bytes. Tied to main.go by running the real binary under strace in multi-step sequences (pre-seeded longer last-good outputs, every error class incl. final-stage gofmt failures, shrinking outputs) and comparing exit status, final contents and the write-open sequence with the model in-kernel.",
+    "level_note": "Trusted: Coq kernel; small hand-written model of main.go; the weight is in the tie (CLI + strace + in-process Generate as the reference for 'the bytes the generator produced').",
+    "theorem_status": {"C20_error_no_write": "proved", "C20_error_reported": "proved", "C20_success_exact": "proved",
+                       "C20_success_order_independent": "proved", "C20_writes_only_generated": "proved"},
+}
